@@ -13,7 +13,7 @@
 From Coq Require Import List ZArith Arith Sorted.
 Import ListNotations.
 From TV Require Import Lib.Obs C33.Model C33.Proofs C34.Model C34.Run
-  C34.ProofsCond C34.ProofsCond2 C34.ProofsEvent C34.ProofsEvent2 C34.ProofsEvent3.
+  C34.ProofsCond C34.ProofsCond2 C34.ProofsEvent C34.ProofsEvent2 C34.ProofsEvent3 C34.ProofsEvent6.
 Local Open Scope Z_scope.
 
 (* ===== Condition ===== *)
@@ -164,11 +164,31 @@ Proof.
 Qed.
 Print Assumptions C34_event_finished_waits_leave_no_residue.
 
-(* the observable of the model passes the property checker on every Condition case.
-   PARTIAL: the full statement is  forall c, check_case c (run_case c) = true ; for Event cases
-   the checker (check_event) is evaluated on every correspondence case but its soundness on the
-   model is not proved here (see NOTES.md). *)
-Theorem C34_model_passes_checker_partial :
-  forall ops, check_case (CondCase ops) (run_case (CondCase ops)) = true.
-Proof. exact check_case_cond. Qed.
-Print Assumptions C34_model_passes_checker_partial.
+(* timeouts: any argument other than None - in particular the falsy 0, 0.0 and timedelta(0) -
+   is a deadline: Condition.wait arms a timer that resolves the wait False, Event.wait on a
+   clear event arms a timer that gives TimeoutError *)
+Theorem C34_condition_any_timeout_including_zero_is_a_deadline :
+  forall s t, t <> TNone ->
+    let w := length (s_futs s) in
+    let s1 := fst (cstep s (CWait t)) in
+    snd (cstep s (CWait t)) = CvWaiting w
+    /\ nth_error (s_futs s1) w = Some (Pending, true)
+    /\ snd (cstep s1 (CFire w)) = CvTimedOut w.
+Proof. exact cond_any_timeout_is_a_deadline. Qed.
+Print Assumptions C34_condition_any_timeout_including_zero_is_a_deadline.
+
+Theorem C34_event_any_timeout_including_zero_is_a_deadline :
+  forall s t, t <> TNone -> e_value s = false ->
+    let w := length (e_waits s) in
+    let s1 := fst (estep s (EWait t)) in
+    snd (estep s (EWait t)) = VWaiting w
+    /\ snd (estep s1 (EFire w)) = VTimedOut w
+    /\ exists x', nth_error (e_waits (fst (estep s1 (EFire w)))) w = Some x' /\ returned x' = RTimeout.
+Proof. exact event_any_timeout_is_a_deadline. Qed.
+Print Assumptions C34_event_any_timeout_including_zero_is_a_deadline.
+
+(* the observable of the model passes the property checker that is applied to the
+   implementation's observable, for every Condition and every Event schedule *)
+Theorem C34_model_passes_checker : forall c, check_case c (run_case c) = true.
+Proof. exact check_case_model. Qed.
+Print Assumptions C34_model_passes_checker.
